@@ -60,9 +60,30 @@ Definition model_geno (k : gcase) : list gobs :=
 Definition holds_fresh {O} (e : O -> O -> bool) (steps : list (O * option O)) : bool :=
   forallb (fun s => match snd s with Some f => e (fst s) f | None => true end) steps.
 
+(* [holds], second clause (session 5; seeded change C12-r6b paired betas with columns by position
+   inside PhenoSimulator.run, so the history object and the fresh object were wrong alike): the
+   result of a read-only by-ID query (PhenoSimulator.run, Haplotypes.transform) is what a search
+   of the IDs the object was observed to hold at that step gives - the abstract step [a_step]
+   (no caches, no history) applied to the observed contents.  No judgement when the abstract step
+   refuses (duplicate IDs among the observed contents) or the operation raised. *)
+Definition view_ok_gen {T} (rare : T -> Z -> Z -> bool) (file : gtab) (anc legacy : bool)
+           (s : xop (gop T) * gobs * option gobs) : bool :=
+  match s with
+  | (XOn p, GO t (OView v), _) =>
+      match a_step gtab gview g_ids1 g_ids2 g_sub1 g_sub2 t (g_interp T rare file anc legacy p) with
+      | Ok (_, OView v') => gview_eqb v v'
+      | _ => true
+      end
+  | _ => true
+  end.
+Definition holds_view_gen {T} rare file anc legacy (steps : list (xop (gop T) * gobs * option gobs)) : bool :=
+  forallb (view_ok_gen rare file anc legacy) steps.
+Definition holds_view (k : gcase) : bool :=
+  holds_view_gen rareF (gk_file k) (gk_anc k) (gk_legacy k) (gk_steps k).
+
 Definition check_geno (k : gcase) : bool * bool :=
   (list_eqb gobs_eqb (model_geno k) (map (fun s => snd (fst s)) (gk_steps k)),
-   holds_fresh gobs_eqb (map (fun s => (snd (fst s), snd s)) (gk_steps k))).
+   if holds_fresh gobs_eqb (map (fun s => (snd (fst s), snd s)) (gk_steps k)) then holds_view k else false).
 
 (* ---- phenotypes / covariates ---------------------------------------------- *)
 
